@@ -93,6 +93,13 @@ def _make_data(kind: str, shape, seed: int, rank: int, integral: bool = False):
     if kind == "sparse":
         D = base.copy()
         D[rng.rand(*shape) < 0.3] = 0
+        if seed % 2 == 0 and len(shape) >= 3 and max(shape) >= 4:
+            # a sparsely populated mode: the upper half of the slices of the longest mode holds no data (the sparse
+            # holder then answers its single-mode products in sparse form)
+            k = int(np.argmax(shape))
+            idx = [slice(None)] * len(shape)
+            idx[k] = slice(shape[k] // 2, None)
+            D[tuple(idx)] = 0
         if integral and np.count_nonzero(D) < 2:
             D.reshape(-1)[:2] = [1, 2]
         S = ttb.tensor(D).to_sptensor()
